@@ -4,6 +4,7 @@ import (
 	"fmt"
 	"go/token"
 	"go/types"
+	"os"
 	"sort"
 	"strings"
 
@@ -237,7 +238,8 @@ func ruleGuardedBy(c *Ctx, prefix string, only ...string) {
 		var rmwBad []string
 		ex.Hooks.Instr = func(st *State, in ssa.Instruction) {
 			if call, ok := in.(*ssa.Call); ok {
-				if op, _ := mutexOp(&call.Call); op == "unlock" {
+				// (a deferred unlock is not an instruction of the path: the next acquisition ends the section as well)
+				if op, _ := mutexOp(&call.Call); op == "unlock" || op == "lock" {
 					// values read from guarded state are stale once the section ends
 					for l := range st.seen {
 						if strings.HasPrefix(l, "gr:") {
@@ -302,8 +304,24 @@ func ruleGuardedBy(c *Ctx, prefix string, only ...string) {
 				case *ssa.MapUpdate:
 					stored = w.Value
 				}
+				// ... and neither may the key it is written (or deleted) under
+				var operands []ssa.Value
 				if stored != nil {
-					for _, o := range valueOrigins(stored) {
+					operands = append(operands, stored)
+				}
+				switch w := in.(type) {
+				case *ssa.MapUpdate:
+					operands = append(operands, w.Key)
+				case *ssa.Call:
+					if len(w.Call.Args) > 1 {
+						operands = append(operands, w.Call.Args[1])
+					}
+				}
+				for _, operand := range operands {
+					for _, o := range valueOrigins(operand) {
+						if os.Getenv("CDLINT_DEBUG_RMW") != "" {
+							fmt.Fprintf(os.Stderr, "RMW %s operand %s origin %s (%T) seen=%v\n", c.P.InstrPos(in), operand.Name(), o.String(), o, st.seen["gr:"+anm(o)])
+						}
 						ov, ok := o.(ssa.Instruction)
 						if !ok {
 							continue
@@ -419,6 +437,11 @@ func guardedAccess(ex *Explorer, st *State, in ssa.Instruction, table []*guardEn
 			op = y.X
 		case *ssa.Range:
 			op = y.X
+		case *ssa.Call:
+			// delete(m, k) / clear(m) on a guarded container
+			if b, ok := y.Call.Value.(*ssa.Builtin); ok && (b.Name() == "delete" || b.Name() == "clear") && len(y.Call.Args) > 0 {
+				op, write = y.Call.Args[0], true
+			}
 		}
 		if op == nil {
 			return nil, false, nil
@@ -721,7 +744,7 @@ func valueOrigins(v ssa.Value) []ssa.Value {
 	var out []ssa.Value
 	var walk func(v ssa.Value, d int)
 	walk = func(v ssa.Value, d int) {
-		if v == nil || seen[v] || d > 12 {
+		if v == nil || seen[v] || d > 20 {
 			return
 		}
 		seen[v] = true
@@ -739,13 +762,36 @@ func valueOrigins(v ssa.Value) []ssa.Value {
 			}
 		case *ssa.Slice:
 			walk(x.X, d+1)
+			for _, e := range varargElems(x) { // the elements of a variadic argument list
+				walk(e, d+1)
+			}
 		case *ssa.ChangeType:
 			walk(x.X, d+1)
 		case *ssa.Convert:
 			walk(x.X, d+1)
 		case *ssa.MakeInterface:
 			walk(x.X, d+1)
+		case *ssa.UnOp:
+			// an element read out of a container: whatever was put into the container
+			if ia, ok := x.X.(*ssa.IndexAddr); ok && x.Op == token.MUL {
+				walk(ia.X, d+1)
+			}
+			// a local variable kept in memory (address taken, or live across a defer): what was stored into it
+			if al, ok := x.X.(*ssa.Alloc); ok && x.Op == token.MUL {
+				for _, r := range *al.Referrers() {
+					if sto, ok := r.(*ssa.Store); ok && sto.Addr == ssa.Value(al) {
+						walk(sto.Val, d+1)
+					}
+				}
+			}
+		case *ssa.Next:
+			walk(x.Iter, d+1)
+		case *ssa.Range:
+			walk(x.X, d+1)
 		case *ssa.Extract:
+			if nx, ok := x.Tuple.(*ssa.Next); ok {
+				walk(nx, d+1)
+			}
 			// result of a same-package helper: what its returns yield
 			if call, ok := x.Tuple.(*ssa.Call); ok {
 				if f := call.Call.StaticCallee(); f != nil && len(f.Blocks) > 0 && call.Parent() != nil && defaultInline(call.Parent(), f) {
@@ -789,4 +835,191 @@ func inlinedEverywhere(c *Ctx, fn *ssa.Function) bool {
 		}
 	}
 	return true
+}
+
+// ruleFreshPublish: a map published by storing it into a package-level
+// variable that handlers read is a map built for that purpose (make / literal
+// in the storing call chain, or nil) - not an object that is also kept
+// somewhere else (a cache, another variable), where it could be modified
+// without the lock that guards the published variable.
+func ruleFreshPublish(c *Ctx, rule string) {
+	n := 0
+	for _, fn := range c.P.SrcFuncs() {
+		if isFixture(fn) || fn.Name() == "init" {
+			continue
+		}
+		for _, b := range fn.Blocks {
+			for _, in := range b.Instrs {
+				sto, ok := in.(*ssa.Store)
+				if !ok {
+					continue
+				}
+				g, ok := sto.Addr.(*ssa.Global)
+				if !ok || !FirstParty(fn) || g.Pkg == nil || !isFirstPartyPath(g.Pkg.Pkg.Path()) {
+					continue
+				}
+				if _, isMap := sto.Val.Type().Underlying().(*types.Map); !isMap {
+					continue
+				}
+				n++
+				key := fmt.Sprintf("%s publishes %s#%d", shortFn(fn), shortName(g.String()), n)
+				okAll := true
+				why := ""
+				for _, l := range mayLeaves(c.P, sto.Val) {
+					switch x := l.(type) {
+					case *ssa.MakeMap:
+						continue
+					case *ssa.Const:
+						if x.Value == nil {
+							continue
+						}
+					}
+					okAll, why = false, l.String()
+					if in, ok := l.(ssa.Instruction); ok {
+						why += " at " + c.P.InstrPos(in)
+					}
+				}
+				if okAll {
+					c.R.ok(rule, key, c.P.InstrPos(in), shortFn(fn), "the published map is built fresh in the storing call chain (or nil)")
+				} else {
+					c.R.bad(rule, key, c.P.InstrPos(in), shortFn(fn), "the map stored into "+shortName(g.String())+" is not built fresh for publication ("+shortName(why)+"): the same object stays reachable elsewhere and can be modified without the lock guarding the published variable")
+				}
+			}
+		}
+	}
+	c.R.Note("%s: %d stores of maps into package-level variables outside init", rule, n)
+}
+
+// poolNonRetaining: callees known (by reading them) not to keep a reference to
+// the pooled argument after they return.
+var poolNonRetaining = map[string]string{
+	"(*sync.Pool).Put": "the release itself",
+	"github.com/insomniacslk/dhcp/dhcpv4.FromBytes": "the parser copies every field out of the buffer (uio.Lexer Read/CopyN)",
+	"github.com/insomniacslk/dhcp/dhcpv6.FromBytes": "the parser copies every field out of the buffer (uio.Lexer Read/CopyN)",
+}
+
+// rulePoolRetain: an object that is given back to a sync.Pool was not handed,
+// in the same function, to anything that may keep it (an option constructor,
+// a reply, a goroutine): the pool gives the same object to the next user while
+// the first holder still reads it. Flow-insensitive over the function and the
+// helpers explored inline with it; the callees accepted are listed by name.
+func rulePoolRetain(c *Ctx, rule string) {
+	n := 0
+	for _, fn := range c.P.SrcFuncs() {
+		if isFixture(fn) {
+			continue
+		}
+		var puts []*ssa.Call
+		for _, b := range fn.Blocks {
+			for _, in := range b.Instrs {
+				if call, ok := in.(*ssa.Call); ok {
+					if f := call.Call.StaticCallee(); f != nil && f.String() == "(*sync.Pool).Put" {
+						puts = append(puts, call)
+					}
+				}
+			}
+		}
+		for _, put := range puts {
+			n++
+			key := fmt.Sprintf("%s Put#%d", shortFn(fn), n)
+			x := put.Call.Args[1]
+			if mi, ok := x.(*ssa.MakeInterface); ok {
+				x = mi.X
+			}
+			// the object: the pointer value itself, or the variable whose address is released
+			alias := map[ssa.Value]bool{x: true}
+			if al, ok := x.(*ssa.Alloc); ok {
+				for _, r := range *al.Referrers() {
+					if ld, ok := r.(*ssa.UnOp); ok && ld.Op == token.MUL {
+						alias[ld] = true
+					}
+				}
+			}
+			for changed := true; changed; {
+				changed = false
+				for _, b := range fn.Blocks {
+					for _, in := range b.Instrs {
+						v, ok := in.(ssa.Value)
+						if !ok || alias[v] {
+							continue
+						}
+						switch y := in.(type) {
+						case *ssa.Phi:
+							for _, e := range y.Edges {
+								if alias[e] {
+									alias[v], changed = true, true
+								}
+							}
+						case *ssa.Slice:
+							if alias[y.X] {
+								alias[v], changed = true, true
+							}
+						case *ssa.ChangeType:
+							if alias[y.X] {
+								alias[v], changed = true, true
+							}
+						case *ssa.MakeInterface:
+							if alias[y.X] {
+								alias[v], changed = true, true
+							}
+						}
+					}
+				}
+			}
+			bad := ""
+			for _, b := range fn.Blocks {
+				for _, in := range b.Instrs {
+					var cc *ssa.CallCommon
+					switch y := in.(type) {
+					case *ssa.Call:
+						cc = &y.Call
+					case *ssa.Go:
+						cc = &y.Call
+					case *ssa.Defer:
+						cc = &y.Call
+					case *ssa.Store:
+						if alias[y.Val] {
+							if _, local := y.Addr.(*ssa.Alloc); !local {
+								bad = fmt.Sprintf("the pooled object is stored at %s and released at %s: whoever reads that location later shares it with the pool's next user", c.P.InstrPos(in), c.P.InstrPos(put))
+							}
+						}
+						continue
+					default:
+						continue
+					}
+					if _, isB := cc.Value.(*ssa.Builtin); isB {
+						continue
+					}
+					uses := false
+					for _, a := range cc.Args {
+						if alias[a] {
+							uses = true
+						}
+					}
+					if !uses {
+						continue
+					}
+					name := "a function value"
+					if f := cc.StaticCallee(); f != nil {
+						name = f.String()
+					} else if cc.IsInvoke() {
+						name = invokeName(cc)
+					}
+					if _, ok := poolNonRetaining[name]; ok {
+						continue
+					}
+					if _, isGo := in.(*ssa.Go); isGo {
+						name = "a new goroutine running " + name
+					}
+					bad = fmt.Sprintf("the pooled object released at %s is first handed to %s (%s), which may keep a reference: the pool gives the same object to the next user while it is still in use", c.P.InstrPos(put), shortName(name), c.P.InstrPos(in))
+				}
+			}
+			if bad != "" {
+				c.R.bad(rule, key, c.P.InstrPos(put), shortFn(fn), bad)
+			} else {
+				c.R.ok(rule, key, c.P.InstrPos(put), shortFn(fn), "the released object is only passed to callees known not to keep it")
+			}
+		}
+	}
+	c.R.Note("%s: %d sync.Pool.Put sites in first-party code", rule, n)
 }
